@@ -681,3 +681,18 @@ Proof.
     + eapply nth_error_In; eassumption.
     + rewrite (globals_ids _ _ _ Hl1). destruct (to_global_id _ _ _ Hg2) as (Hid & _). rewrite Hid. exact Hnot.
 Qed.
+
+(* ---------------------------------------------------------------- the pieces put together *)
+Lemma interp_lookup_both_usable : forall l t tol i fb j fa,
+  ascending l -> is_before l t i fb -> is_after l t j fa ->
+  dist t fb <= tol -> dist t fa <= tol -> well_formed fb -> well_formed fa ->
+  exists f, get_interpolated_now_frame l t tol = RInterp i j f /\ if_stamp f = t /\
+            f_stamp fb <= t < f_stamp fa.
+Proof.
+  intros l t tol i fb j fa Hs Hb Ha Hdb Hda Hwb Hwa.
+  rewrite (interp_gating l t tol (Some (i, fb)) (Some (j, fa)) Hs Hb Ha).
+  cbn [within]. apply Z.leb_le in Hdb, Hda. rewrite Hdb, Hda. cbn [four_way_spec].
+  destruct (interp_frames_defined i j fb fa t Hwb Hwa) as [f Hf]. exists f.
+  split; [exact Hf|]. destruct (interp_frames_inv _ _ _ _ _ _ _ _ Hf) as (_ & _ & Hst & _).
+  split; [exact Hst|]. destruct Hb as (_ & Hle & _). destruct Ha as (_ & Hlt & _). lia.
+Qed.
